@@ -132,7 +132,7 @@ type w2cfg struct {
 	rules    []sequence.RuleArgs
 	lazy     int
 	nClients int
-	transports []int // per client: 0 udp-meta, 1 tcp, 2 doh get, 3 doh post
+	transports []int // per client: 0 udp-meta, 1 tcp, 2 doh get, 3 doh post, 4 udp (real ServeUDP on a simulated socket)
 	perClient []int
 	upBehav  []int // weights index per upstream
 	fwdCodes map[uint16]bool // option codes some forward_edns0opt rule forwards
@@ -158,7 +158,7 @@ func w2Setup(rc *RunCtx, mode string) simrt.Config {
 	c.lazy = []int{0, 0, 3600}[r.Choose(3)]
 	c.nClients = 1 + r.Choose(widen(4, 8))
 	for i := 0; i < c.nClients; i++ {
-		c.transports = append(c.transports, r.Choose(4))
+		c.transports = append(c.transports, r.Choose(5))
 		c.perClient = append(c.perClient, 1+r.Choose(widen(8, 16)))
 	}
 	for range w2Upstreams {
@@ -588,6 +588,12 @@ func w2Main(rc *RunCtx) {
 		server.ServeTCP(l, eh, server.TCPServerOpts{IdleTimeout: 8 * time.Second})
 		simrt.Send(0, srvDone, struct{}{})
 	})
+	pl := rc.Net.ListenPacket("10.0.0.53:53")
+	udpDone := make(chan struct{}, 1)
+	simrt.GoNamed("ServeUDP", func() {
+		server.ServeUDP(pl, eh, server.UDPServerOpts{})
+		simrt.Send(0, udpDone, struct{}{})
+	})
 	hh := server.NewHttpHandler(eh, server.HttpHandlerOpts{})
 	done := make(chan struct{}, c.nClients)
 	for ci := 0; ci < c.nClients; ci++ {
@@ -648,6 +654,8 @@ func w2Main(rc *RunCtx) {
 			switch c.transports[ci] {
 			case 1:
 				c.clientTCP(rc, ci, qs)
+			case 4:
+				c.clientUDP(rc, ci, qs)
 			default:
 				qd := make(chan struct{}, len(qs))
 				for _, wq := range qs {
@@ -708,6 +716,8 @@ func w2Main(rc *RunCtx) {
 	simrt.Sleep(0, 6*time.Second)
 	l.Close()
 	simrt.Recv(0, srvDone)
+	pl.Close()
+	simrt.Recv(0, udpDone)
 	c.checkAll(rc)
 	for _, f := range c.closers {
 		f()
@@ -762,6 +772,53 @@ func (c *w2cfg) clientTCP(rc *RunCtx, ci int, qs []*w2query) {
 	cc.Close()
 }
 
+// clientUDP: one client socket, all queries of the round as datagrams to the
+// real ServeUDP loop (back to back or spaced by PRNG pauses), replies matched
+// by ID until nothing has arrived for 7 s.
+func (c *w2cfg) clientUDP(rc *RunCtx, ci int, qs []*w2query) {
+	nc, err := rc.Net.Dial(context.Background(), "udp", "10.0.0.53:53")
+	if err != nil {
+		panic(err)
+	}
+	cc := nc.(*simnet.Conn)
+	cc.SetClientIP(fmt.Sprintf("10.7.0.%d", ci+1))
+	byID := map[uint16]*w2query{}
+	for _, wq := range qs {
+		byID[wq.Msg.Id] = wq
+		wq.SentAt = simrt.S.Elapsed()
+		cc.WriteMsg(wq.Wire, nil)
+		if simrt.Choose(3) == 0 {
+			simrt.Sleep(0, time.Duration(simrt.Choose(50))*time.Millisecond)
+		}
+	}
+	for {
+		cc.SetReadDeadline(time.Now().Add(7 * time.Second))
+		b, err := cc.ReadMsg()
+		if err != nil {
+			break
+		}
+		if len(b) < 2 {
+			continue
+		}
+		id := binary.BigEndian.Uint16(b)
+		if wq := byID[id]; wq != nil {
+			wq.Replies = append(wq.Replies, b)
+			if len(wq.Replies) == 1 {
+				wq.ReplyAt = simrt.S.Elapsed()
+			}
+		} else {
+			rc.Fail("reply_for_unknown_query", "client %d received a datagram with ID %d that it never used", ci, id)
+		}
+	}
+	for _, wq := range qs {
+		wq.Done = true
+		if len(wq.Replies) == 0 {
+			wq.NoReply = true
+		}
+	}
+	cc.Close()
+}
+
 // ---- oracles ----
 
 func rrStrings(rrs []dns.RR) []string {
@@ -798,7 +855,7 @@ func (c *w2cfg) desc(wq *w2query) string {
 	if len(q.Question) > 0 {
 		qs = fmt.Sprintf("%q type %d class %d", q.Question[0].Name, q.Question[0].Qtype, q.Question[0].Qclass)
 	}
-	return fmt.Sprintf("client %d (%s) query ID %d %s opt=%v size=%d; rules: %s", wq.Client, []string{"udp", "tcp", "doh-get", "doh-post"}[c.transports[wq.Client]], q.Id, qs, wq.HasOpt, wq.OptSize, c.rulesText())
+	return fmt.Sprintf("client %d (%s) query ID %d %s opt=%v size=%d; rules: %s", wq.Client, []string{"udp-handler", "tcp", "doh-get", "doh-post", "udp"}[c.transports[wq.Client]], q.Id, qs, wq.HasOpt, wq.OptSize, c.rulesText())
 }
 
 func (c *w2cfg) rulesText() string {
@@ -885,7 +942,7 @@ func (c *w2cfg) checkC03(rc *RunCtx, wq *w2query) {
 	}
 	wa, wn, we := rrStrings(want.Answer), rrStrings(want.Ns), rrStrings(want.Extra)
 	ga, gn, ge := rrStrings(r.Answer), rrStrings(r.Ns), rrStrings(r.Extra)
-	if tr == 0 {
+	if tr == 0 || tr == 4 {
 		limit := 512
 		if wq.HasOpt && int(wq.OptSize) > limit {
 			limit = int(wq.OptSize)
